@@ -151,12 +151,14 @@ def do_op(model, r: random.Random, neutral, created: list, log: list):
     elif op == "create_pv":
         p = pick(model, r, *FUNC, *COMP)
         created.append(p.property_values.create("StringPropertyValue", name=S(), value=S()))
-    elif op == "create_scenario":        # needs the interaction namespace
-        _, layer = layer_of(model, r)
-        pkg = layer.capability_package if hasattr(layer, "capability_package") else layer.capability_pkg
-        caps = pkg.capabilities
+    elif op == "create_scenario":        # capability involvement: an element typed in the interaction namespace
+        lname, layer = layer_of(model, r)
+        caps = layer.capability_package.capabilities
         cap = caps[r.randrange(len(caps))] if len(caps) and r.random() < 0.5 else caps.create(name=S())
-        created.append(cap.scenarios.create(name=S()))
+        f = pick(model, r, {"la": "LogicalFunction", "sa": "SystemFunction", "oa": "OperationalActivity", "pa": "PhysicalFunction"}[lname])
+        if f is not None:
+            (cap.involved_functions if hasattr(cap, "involved_functions") else cap.involved_activities).append(f)
+        created.append(cap)
     elif op == "create_reqmodule":       # needs the CapellaRequirements namespace
         _, layer = layer_of(model, r)
         mod = layer.requirement_modules.create(name=S())
@@ -248,7 +250,40 @@ def semantic_inputs(loader, core, helpers, ns_mod):
     return res
 
 
-def run_history(spec, seed: int, neutral: frozenset, skip_ops: frozenset, *, tier: str, want_corr: bool) -> Outcome:
+def do_directed(model, kind: str, value: str, index: int, log: list, created: list):
+    if kind in ("spec_body", "spec_lang"):
+        n = 0
+        for c in model.search("Constraint"):
+            try:
+                sp = c.specification
+            except AttributeError:
+                continue
+            if n == index:
+                if kind == "spec_body":
+                    sp["Python"] = value
+                    log.append(("spec_set", c.uuid, "Python", value))
+                else:
+                    sp[value] = "body of " + repr(value)
+                    log.append(("spec_lang", c.uuid, value, "x"))
+                return
+            n += 1
+    elif kind == "name":
+        objs = model.search("LogicalFunction", "SystemFunction")
+        o = objs[index % len(objs)]
+        o.name = value
+        o.description = value
+        log.append(("set_name", o.uuid, value))
+    elif kind == "involve":
+        cap = model.la.capability_package.capabilities.create(name=value)
+        f = model.la.root_function.functions.create(name=value)
+        cap.involved_functions.append(f)
+        mod = model.la.requirement_modules.create(name=value)
+        mod.requirements.create(name=value, long_name=value)
+        created += [cap, f, mod]
+        log.append("involve")
+
+
+def run_history(spec, seed: int, neutral: frozenset, skip_ops: frozenset, *, tier: str, want_corr: bool, directed=()) -> Outcome:
     import capellambse
     from capellambse.loader import core
     from capellambse import helpers
@@ -269,8 +304,17 @@ def run_history(spec, seed: int, neutral: frozenset, skip_ops: frozenset, *, tie
         created: list = []
         rounds = r.choice([1, 1, 2, 3])
         opno = 0
+        for i, (kind, value) in enumerate(directed):
+            if "cdata" in neutral:
+                value = value.replace("]]>", "]]x")
+            if "blank" in neutral and value and not value.strip():
+                value = "x" + value
+            try:
+                do_directed(model, kind, value, i, out.ops, created)
+            except Exception as e:  # noqa: BLE001
+                out.rejected.append((-i - 1, kind, type(e).__name__))
         for rnd in range(rounds):
-            for _ in range(r.randrange(1, 8 if tier == "quick" else 14)):
+            for _ in range(r.randrange(1, 8 if tier == "quick" else 14) if not directed else 0):
                 opno += 1
                 opseed = r.getrandbits(40)
                 if opno in skip_ops:
@@ -315,6 +359,15 @@ def run_history(spec, seed: int, neutral: frozenset, skip_ops: frozenset, *, tie
             for f, t in m2._loader.trees.items():
                 if f.parts[0] != "\0":
                     continue
+                # independent namespace oracle: all versioned Capella namespaces of one root carry one version
+                import re as _re
+                vers = {}
+                for p_, u_ in t.root.nsmap.items():
+                    mm = _re.match(r"^http://www\.polarsys\.org/capella/(?:core|common)/.*/(\d+(?:\.\d+)*)$", u_ or "")
+                    if mm:
+                        vers.setdefault(mm.group(1), []).append(p_)
+                if len(vers) > 1:
+                    out.problems.append(f"{f.name}: namespace versions disagree after save: { {k: v[:2] for k, v in vers.items()} }")
                 fz = frozen_doc(t.root)
                 for label, mem in (("memory before save", snap.get(f)), ("memory after save", after.get(f))):
                     if mem is None:
@@ -424,13 +477,26 @@ def run(chk: lib.Check):
     ns_cases, file_cases = [], []
     stats = {"histories": 0, "ops": {}, "rejected_ops": {}, "created": 0, "saves_refused": 0, "skipped_after_rejected_op": 0,
              "ns_root_replaced": 0, "ns_root_kept": 0}
-    deadline = t0 + (110 if quick else 1400)
-    for spec, seed in plan:
+    deadline = t0 + (120 if quick else 1400)
+    # directed histories: every class of special string in a specification body / language / name once, and the
+    # two namespace-requiring creations on the model that does not declare those namespaces
+    specials = ['"&<>\'', "\t", "\r\n", "line1\nline2", " lead", "trail ", "\x7f", "\u0085x", "x\u2028", "\U0001F600", "\U0010FFFF", "&amp;&#x41;",
+                "<![CDATA[x", "-->", "]]", "]>", "é" * 40 + " " + "w" * 60]
+    dplan = [
+        (big[0], [("spec_body", "a ]]> b"), ("spec_lang", "L ]]>")]),
+        (big[0], [("spec_body", " "), ("spec_body", "\n"), ("spec_body", "\u00a0"), ("spec_lang", "\t")]),
+        (big[0], [("spec_body", s_) for s_ in specials] + [("spec_lang", s_) for s_ in specials[:6]] + [("name", s_) for s_ in specials + [" ", "]]>", "\n"]]),
+        (small[0], [("involve", "n1"), ("name", "a ]]> b"), ("name", " ")]),
+    ]
+    if not quick:
+        dplan += [(b_, d_) for b_ in big[1:] for _, d_ in dplan[:3]] + [(s_, dplan[3][1]) for s_ in small[1:]]
+    plan = [(sp_, 1000 + i, d_) for i, (sp_, d_) in enumerate(dplan)] + [(sp_, sd_, ()) for sp_, sd_ in plan]
+    for spec, seed, directed in plan:
         if time.time() > deadline:
             break
         want_corr = len(ns_cases) < (40 if quick else 400)
         try:
-            out = run_history(spec, seed, frozenset(), frozenset(), tier=chk.tier, want_corr=want_corr)
+            out = run_history(spec, seed, frozenset(), frozenset(), tier=chk.tier, want_corr=want_corr, directed=directed)
         except Exception as e:  # noqa: BLE001
             chk.broken.append(f"harness: history {spec['path'].name}:{seed} crashed: {type(e).__name__}: {e}")
             continue
@@ -458,13 +524,13 @@ def run(chk: lib.Check):
             # (a) is it one of the two recorded writer defects?  re-run with that kind of string neutralised
             for ft in sorted(feats) + ([("both")] if len(feats) == 2 else []):
                 neutral = frozenset(feats) if ft == "both" else frozenset({ft})
-                again = run_history(spec, seed, neutral, frozenset(), tier=chk.tier, want_corr=False)
+                again = run_history(spec, seed, neutral, frozenset(), tier=chk.tier, want_corr=False, directed=directed)
                 if not again.problems:
                     key = KNOWN["cdata" if ft == "both" else ft]
                     break
             # (b) an operation the API refused may have left partial state (other properties' subject)
             if key is None and out.rejected:
-                again = run_history(spec, seed, frozenset(), frozenset(n for n, _, _ in out.rejected), tier=chk.tier, want_corr=False)
+                again = run_history(spec, seed, frozenset(), frozenset(n for n, _, _ in out.rejected), tier=chk.tier, want_corr=False, directed=directed)
                 if not again.problems:
                     stats["skipped_after_rejected_op"] += 1
                     continue
